@@ -113,6 +113,7 @@ NOTES = {
  "C14-w15m2": "missed at first, by a fidelity gap of the run-time: simrt.Close was no scheduling point, so the closing task always ran on to its next step (here context's cancel function, a synchronisation inside an uninstrumented library) before a receiver could see the closed channel. Every close is now followed by a scheduling point; infer with a missing include also runs under six further schedules; then caught (error-swallowed).",
  "C16-w15m1": "missed at first: same-day twins of a transaction always differed in something. A quarter of C16's journals now repeat one to three transactions verbatim (twice or three times); then caught (transaction-lost).",
  "C18-w15m2": "missed at first: format was given four files at most, the change hangs from the ninth failing file on. One format-n case in eight now passes 11-15 files of which all but one to three do not parse; then caught (deadlock).",
+ "C05-m2": "caught by C05 and C04 as the checks stood when it arrived (recorded in check_results.txt). Since fix 281999b (which rewrote the code the change touches) the patch no longer applies to /repo; bin/sweep.sh and bin/mutant.sh leave the recorded result untouched when a patch does not apply, so later sweeps list the old result. Found by bin/sweep_par.sh in the follow-up session, which reports 'patch does not apply'.",
 }
 DROPPED = [
  "C04 (wave 7, first change): Builder.Build skips the day sort while days 'arrive in ascending order'; the same idea as C05-m2 (caught by C04, C05, C19).",
